@@ -9,7 +9,7 @@ OID with the right PDU type / max-repetitions, every yield is the next pair of t
 and at the end yielded = Subtree(MIB, base).  Walk.tla (TLC) is the design-level model of the iterator."""
 import json, asyncio
 from vlib import env, tlc, trace, corpus, scripts, apidrv, walks, agent as ag, sesscheck
-from vlib.report import Check
+from vlib.report import Check, confirm_by_replay
 from vlib.env import ToolError, SEED
 
 
@@ -39,7 +39,7 @@ async def run_async(rec, cfg, items, thorough):
         cfgref_holder = {}
         agent = ag.Agent(engine=cfg.engine or None) if cfg.engine else ag.Agent()
         state = {"resp": lambda req: []}
-        api = await apidrv.AsyncApi.create(rec, cfg, lambda req: state["resp"](req), timeout=0.3)
+        api = await apidrv.AsyncApi.create(rec, cfg, lambda req: state["resp"](req), timeout=1.0)
         for op, m, cap, fetch in plan_for(e, k, thorough, cfg.ver):
             if cfg.ver == "v1" and op == "getbulk" and not fetch:
                 continue
@@ -57,7 +57,7 @@ def run_sync(rec, cfg, items, thorough):
         a = rec.n
         agent = ag.Agent(engine=cfg.engine or None) if cfg.engine else ag.Agent()
         state = {"resp": lambda req: []}
-        api = apidrv.SyncApi(rec, cfg, lambda req: state["resp"](req), timeout=0.3)
+        api = apidrv.SyncApi(rec, cfg, lambda req: state["resp"](req), timeout=1.0)
         for op, m, cap, fetch in plan_for(e, k, thorough, cfg.ver):
             if cfg.ver == "v1" and op == "getbulk" and not fetch:
                 continue
@@ -119,7 +119,7 @@ def run(tier):
         sig = dict(client=info["kind"], ver=info["ver"], op=op, ev=ev["ev"], got=ev.get("exc") or "ok")
         chk.violation(sig, "%s %s %s walk of base %s over MIB of %d entries: %s %s" % (info["kind"], info["ver"], op, bytes(info["entry"]["basetext"]).decode(),
                                                                                   len(info["entry"]["mib"]), ev["ev"], ev.get("exc") or json.dumps(ev.get("res"))[:100]),
-                      dict(info=info, events=rec.events[a:idxf + 1][-12:]))
+                      dict(info=info, events=rec.events[a:idxf + 1][-12:]), confirm=confirm_by_replay(replay, dict(info=info)))
     chk.sample(dict(kind="mib-base", entry=entries[500]))
     chk.extra["mib_base_pairs"] = len(entries)
     chk.sample(dict(kind="events", events=[{k: (x if k not in ("wire", "dgram", "interp", "mib") else "...") for k, x in e.items()} for e in rec.events[runs[300][0]:runs[300][0] + 8]]))
